@@ -63,6 +63,14 @@ CLAIMED = {
          "and is decided by the encode->decode oracle on the real code, not by a theorem.",
          "Trusted: as C02. Known findings: RESERVED values and LOOKUP raw values are masked without a range check.",
          "DESIGN.md §5 C09"),
+ "C03": ("Coq proof (structural induction on 6/7-byte chunking; refinement of the reassembly step to a set-based reference) of a hand model + kernel-evaluated correspondence incl. a complete sweep of 224 lengths x 8 counters",
+         "C03_encode/shape/inverse/inverse_interleaved/sequence hold for every payload of 0..223 bytes, every counter, every byte content, every prior decoder state with another counter, any list of messages (counter wrap-around); FastPacket.v tied to _encode_fast_message / _decode_fast_message / _decode by vm_compute cases",
+         "Trusted: Coq kernel + vm_compute; hand model FastPacket.v (wire byte order), tied by the complete 224x8 encoder sweep, random cases and decode_tcp histories; Python int/bytes = Z / list Z. Theorems closed under the global context.",
+         "DESIGN.md §5 C03"),
+ "C04": ("Coq proof: invariant (frame store = filter seen (message frames)), refinement of fp_step to a set-based reference, frame lemma and projection theorem for unbounded histories and streams; kernel-evaluated history correspondence",
+         "C04_frame/product/refines/interleave/safety/once/complete/recover/padding/sender/key hold for all histories of any length over any number of (pgn,src,dst) streams under the stated channel model (consecutive counters on a stream differ; stale frames carry another counter; senders satisfy msg_ok, proved for the library's segmenter with up to 6 filler bytes); C04_unrepaired_refuted shows the padding dependence of the code before fix 5097fe2",
+         "Trusted: kernel + vm_compute; FastPacket.v tied by adversarial decode_tcp histories incl. final buffer contents; tcp_frame + Header.extract_header stand in for the decode_tcp front end; channel-model hypotheses. Theorems closed under the global context.",
+         "DESIGN.md §5 C04"),
 }
 PENDING_REASON = "not claimed yet: model/theorems for this property are still being built (see DESIGN.md §9 build order)"
 
